@@ -208,7 +208,10 @@ MANIFEST = {
     "text": "Proof: C08_joint_components / C08_joint_score (the JointUtility accessors are the weighted sums, any weights; "
             "NaN-sentinel rule), C08_kernel_linear (K=1 neighbor scores under the joint tables = weighted sum of the "
             "scores under each component, same rank orders), C08_shift, C08_shapley_linear/_scale/_shift (any game: "
-            "bruteforce without failing coalitions, the ADD path through C02). Tied to the code at API level with real "
+            "bruteforce without failing coalitions, the ADD path through C02), C08_bruteforce_linear (the MODEL of the bruteforce "
+            "loop under a joint utility = weighted sum of the component results when no coalition fails) and C08_add_linear (the "
+            "MODEL of compute_shapley_add is linear in utility table and null vector for ANY oracle answers, provenance, K and "
+            "distances). Tied to the code at API level with real "
             "JointUtility objects over retained-array table utilities (negative / zero / default weights, repeated "
             "components): accessors and scores vs the model and vs the weighted sum of the component runs, inside Coq; "
             "K=2 (ADD path) and bruteforce as relations between runs.",
